@@ -22,13 +22,26 @@ fn log(v: Value) {
     EVENTS.with(|e| e.borrow_mut().push(v));
 }
 
+/// Appends an event and returns its index (reader half).
+pub fn log_event(v: Value) -> usize {
+    EVENTS.with(|e| {
+        e.borrow_mut().push(v);
+        e.borrow().len() - 1
+    })
+}
+
+/// Completes an earlier event with something only known once the call has returned.
+pub fn patch_event(at: usize, key: &str, v: Value) {
+    EVENTS.with(|e| e.borrow_mut()[at][key] = v);
+}
+
 fn bits_of(bytes: &[u8], bit_len: usize) -> Vec<u8> {
     (0..bit_len).map(|i| (bytes[i / 8] >> (7 - i % 8)) & 1).collect()
 }
 
-const SMALL: i64 = 1 << 29;
+pub const SMALL: i64 = 1 << 29;
 
-fn size_json(min: Option<u64>, max: Option<u64>, ext: bool) -> Option<Value> {
+pub fn size_json(min: Option<u64>, max: Option<u64>, ext: bool) -> Option<Value> {
     match (min, max) {
         (None, None) => Some(json!({"c": "none", "lb": 0, "ub": 0, "ext": false})),
         (lb, Some(ub)) if ub < SMALL as u64 => Some(json!({"c": "sz", "lb": lb.unwrap_or(0), "ub": ub, "ext": ext})),
